@@ -139,15 +139,20 @@ Proof.
                              exists F', Cons m' c' F' P T D).
   { intros neg H'. apply rbind_ok in H'. destruct H' as [ixn [Hn H']]. exists (length ixn).
     eapply gather_frames_cons; try eassumption. eapply rmapM_norm_lt; eassumption. }
+  assert (Hempty : P * T * D = 0 -> gather_frames be F P T D (map (fun _ : Z => 0) ix) m c = Ok (m', c') -> be <> Np ->
+                   exists F', Cons m' c' F' P T D).
+  { intros E0 H' Hb. exists (length (map (fun _ : Z => 0) ix)). unfold gather_frames in H'.
+    pose proof (regather_shapes m c (length (map (fun _ : Z => 0) ix)) P T D (fun j => nth j (map (fun _ : Z => 0) ix) 0) idf) as HS.
+    cbn zeta in HS. destruct (regather _ P T D _ idf m c) as [m1 c1]. cbn [fst snd] in HS.
+    destruct be; [congruence| |]; inversion H'; subst; destruct HS as [A [B [C0 D0]]]; apply cons_empty; assumption. }
   destruct be.
-  - eapply Hgen; exact H.
+  - destruct ix; eapply Hgen; exact H.
   - destruct (P * T * D =? 0) eqn:E0.
-    + apply Nat.eqb_eq in E0. exists (length (map (fun _ : Z => 0) ix)). unfold gather_frames in H.
-      pose proof (regather_shapes m c (length (map (fun _ : Z => 0) ix)) P T D (fun j => nth j (map (fun _ : Z => 0) ix) 0) idf) as HS.
-      cbn zeta in HS. destruct (regather _ P T D _ idf m c) as [m1 c1]. cbn [fst snd] in HS. inversion H; subst.
-      destruct HS as [A [B [C0 D0]]]. apply cons_empty; assumption.
+    + apply Nat.eqb_eq in E0. destruct ix; (eapply Hempty; [exact E0|exact H|discriminate]).
+    + destruct ix; eapply Hgen; exact H.
+  - destruct ix; [discriminate|]. destruct (P * T * D =? 0) eqn:E0.
+    + apply Nat.eqb_eq in E0. eapply Hempty; [exact E0|exact H|discriminate].
     + eapply Hgen; exact H.
-  - destruct ix; [discriminate|]. eapply Hgen; exact H.
 Qed.
 Lemma dropout_cons be F P T D sel m c m' c' :
   Cons m c F P T D -> dropout be F P T D sel m c = Ok (m', c') -> Cons m' c' (length sel) P T D.
